@@ -327,8 +327,8 @@ Definition pat_names (p : pat) : list text :=
 Fixpoint has_dup (l : list text) : bool :=
   match l with [] => false | x :: r => mem_text x r || has_dup r end.
 
-Definition parse_pattern_with (O : oracle) (dflt : option hre) (src : text) : res pat :=
-  if negb regex_sources_ok then FactsDrift else
+(* the pattern syntax as written down from the module regexes and _compile_route *)
+Definition parse_core (O : oracle) (dflt : option hre) (src : text) : res pat :=
   let r1 := if has_old src && negb (has_brace src) then old_sub O src false else src in
   let r2 := if startswith [47%N] r1 then r1 else 47%N :: r1 in
   let '(r3, rem) := match rsplit_star r2 with
@@ -351,6 +351,11 @@ Definition parse_pattern_with (O : oracle) (dflt : option hre) (src : text) : re
   | Unsupported => Unsupported
   | FactsDrift => FactsDrift
   end.
+
+(* the model only claims to follow the source while the module regexes, the group format
+   and the absence of re flags are the ones it was written against *)
+Definition parse_pattern_with (O : oracle) (dflt : option hre) (src : text) : res pat :=
+  if negb regex_sources_ok then FactsDrift else parse_core O dflt src.
 
 (* the default placeholder regex is whatever the source says now *)
 Definition parse_pattern (O : oracle) (src : text) : res pat :=
@@ -618,7 +623,7 @@ Fixpoint spec_routes (O : oracle) (ds : list (nat * decl)) : res (list route) :=
   match ds with
   | [] => Ok []
   | (i, d) :: r =>
-      match parse_pattern_with O (Some spec_default_hole) (d_src d), spec_routes O r with
+      match parse_core O (Some spec_default_hole) (d_src d), spec_routes O r with
       | Ok p, Ok rs => Ok (if d_static d then rs else mkRoute i (d_name d) p (d_preds d) :: rs)
       | Unsupported, _ | _, Unsupported => Unsupported
       | FactsDrift, _ | _, FactsDrift => FactsDrift
@@ -628,7 +633,7 @@ Fixpoint spec_routes (O : oracle) (ds : list (nat * decl)) : res (list route) :=
 
 Inductive spec_outcome := SNothing (* the property says nothing *) | SDecodeError | SMatch (r : route) (d : matchdict) | SNone.
 Definition all_ok (O : oracle) (ds : list decl) : bool :=
-  forallb (fun d => match parse_pattern_with O (Some spec_default_hole) (d_src d) with Ok _ => true | _ => false end) ds.
+  forallb (fun d => match parse_core O (Some spec_default_hole) (d_src d) with Ok _ => true | _ => false end) ds.
 Definition spec_request (O : oracle) (ds : list decl) (method : text) (raw : option text) : spec_outcome :=
   if negb (all_ok O ds) then SNothing else
   match spec_routes O (last_wins (number 0 ds)) with
